@@ -391,6 +391,11 @@ class CompileThenIndex(object):
                 # a compliance statement with groups, one whose MODULE part names no group at all, one naming another module
                 for compl in ('groups', 'bare', 'other-module'):
                     yield {'sib': block['sib'], 'n': n, 'sibling_first': first, 'ident': 1, 'compl': compl}
+                # the vendor root (and with it identity / compliance OIDs below it) written out in full: all arcs as numbers,
+                # or as name(number) pairs - no bare name in the value
+                for spelling in ('numbers', 'pairs'):
+                    for compl in (None, 'groups'):
+                        yield {'sib': block['sib'], 'n': n, 'sibling_first': first, 'ident': 1, 'compl': compl, 'spelling': spelling}
 
     def run_case(self, case):
         from pysmi.compiler import MibCompiler
@@ -404,12 +409,14 @@ class CompileThenIndex(object):
                    'internet41': 'lookAlike OBJECT IDENTIFIER ::= { internet 41 }\n'}[sib]
         if sib != 'enterprises':
             imports.append('enterprises')
-        vendor = 'vendorRoot OBJECT IDENTIFIER ::= { enterprises %d }\nvendorLeaf OBJECT IDENTIFIER ::= { vendorRoot 1 }\n' % n
+        root_oid = {None: 'enterprises %d' % n, 'numbers': '1 3 6 1 4 1 %d' % n,
+                    'pairs': 'iso(1) org(3) dod(6) internet(1) private(4) enterprises(1) %d' % n}[case.get('spelling')]
+        vendor = 'vendorRoot OBJECT IDENTIFIER ::= { %s }\nvendorLeaf OBJECT IDENTIFIER ::= { vendorRoot 1 }\n' % root_oid
         ident = ''
         if case['ident']:
             imports += ['MODULE-IDENTITY']
             ident = ('vendorModule MODULE-IDENTITY LAST-UPDATED "202001010000Z" ORGANIZATION "o" CONTACT-INFO "c" DESCRIPTION "d" '
-                     '::= { vendorRoot 9 }\n')
+                     '::= { %s }\n' % ('vendorRoot 9' if not case.get('spelling') else root_oid + ' 9'))
         confimp = ''
         if case.get('compl'):
             confimp = ' MODULE-COMPLIANCE, OBJECT-GROUP FROM SNMPv2-CONF'
